@@ -37,6 +37,8 @@ mod local;
 mod memory;
 mod pending;
 mod port;
+#[cfg(folo_verif)]
+pub mod verif;
 
 pub use azure::AzureBlobStorage;
 pub use caching::CachingStorage;
